@@ -509,44 +509,6 @@ func TestC10_Burner(t *testing.T) {
 	})
 }
 
-// TestC10_BurnerProbe prints the measured gas per unit of work of every shape
-// (development aid; only with VERIF_DEBUG).
-func TestC10_BurnerProbe(t *testing.T) {
-	if os.Getenv("VERIF_DEBUG") == "" {
-		t.Skip()
-	}
-	var c c10BurnCase
-	for _, sh := range c10Shapes {
-		for _, w := range []int{1000, 20000} {
-			b := c10Burn{Shape: sh.name, Gas: 200_000_000}
-			switch sh.name {
-			case "Fib":
-				b.N = map[int]int{1000: 14, 20000: 20}[w]
-			case "Double":
-				b.N = map[int]int{1000: 14, 20000: 20}[w]
-			case "Rec":
-				b.N, b.M = 100, w/100
-			default:
-				if sh.two {
-					b.N, b.M = 4096, w*int(sh.den)/4096+1
-				} else {
-					b.N = w
-				}
-			}
-			c.Burns = append(c.Burns, b)
-		}
-	}
-	for _, m := range [][3]int{{64, 32, 1}, {4096, 32, 1}, {65536, 32, 1}, {65536, 32, 4}, {256, 256, 1}, {16384, 256, 1}} {
-		c.Burns = append(c.Burns, c10Burn{Shape: "ModExp", N: m[0], M: m[1] | m[2]<<12, Gas: 200_000_000})
-	}
-	c.Burns = append(c.Burns, c10Burn{Shape: "Forever", Gas: 3_000_000})
-	r := vk.Open(t, "C10", "TestC10_BurnerProbe", "probe")
-	defer r.Close()
-	if err := r.Do(c, func(ctx *vk.Ctx) error { return c10BurnExec(ctx, c) }); err != nil {
-		t.Log(err)
-	}
-}
-
 // c10FixedBurns: for every shape one burner whose work is so large that
 // eps*work exceeds its GasWanted several times - it can only be reported
 // successful if (part of) its work is not metered - and one moderate burner
